@@ -100,11 +100,9 @@ class Budget:
     # the same cursor / the end of the loop iteration (an over-strict guard rejects the shortest valid encoding)
     def new_guard(self, st, cur, e, line):
         self.leftover(st, cur, f"the next guard (line {line})", e)
-        if e.is_const():
-            self.guards.append({"cursor": cur, "need": e.const_value(), "line": line, "slack": None})
-            st.setdefault("g", {})[cur] = len(self.guards) - 1
-        else:
-            st.setdefault("g", {}).pop(cur, None)
+        # symbolic guards (`remaining() >= item_length`) are tracked too: what counts is a *constant* positive rest after the reads
+        self.guards.append({"cursor": cur, "need": e.const_value() if e.is_const() else repr(e), "line": line, "slack": None})
+        st.setdefault("g", {})[cur] = len(self.guards) - 1
 
     def leftover(self, st, cur, where, new=None):
         gi = st.get("g", {}).get(cur)
@@ -201,6 +199,11 @@ class Budget:
         states = [s for s in states if s is not None]
         if not states:
             return None
+        # a guard established inside one branch ends with the branch: what it demanded and nobody read is over-demand
+        for s in states:
+            for c, gi in list(s.get("g", {}).items()):
+                if any(o.get("g", {}).get(c) != gi for o in states):
+                    self.leftover(s, c, "the end of its branch")
         out = self.copy_state(states[0])
         for s in states[1:]:
             keys = set(out["b"]) | set(s["b"])
@@ -258,7 +261,11 @@ class Budget:
             return st
         if k == "ret":
             if n[2] is not None:
-                self.ev(n[2], st)
+                st = self.ev(n[2], st)
+                v = H.peel(n[2])
+                if st is not None and H.kind(v) == "call" and (H.callee(v) or "").endswith("Result::Ok"):
+                    for c in list(st.get("g", {})):
+                        self.leftover(st, c, f"the successful return at line {n[1]}")
             return None
         if k in ("break", "continue"):
             return None
@@ -305,6 +312,9 @@ class Budget:
             touched = {place_text(x[4]) for x in H.walk(body) if H.kind(x) == "mcall" and self.is_buf_call(x) and place_text(x[4])}
             touched |= {place_text(a) for x in H.walk(body) if H.kind(x) in ("call", "mcall") for a in H.call_args(x) if place_text(a) in st["b"]}
             for c in touched:
+                # bytes demanded by a constant guard but still unread when a `while has_remaining()` / loop over the same cursor starts
+                # were demanded of the *items that follow*: an input that ends here is rejected
+                self.leftover(st, c, f"the start of the loop at line {n[1]}")
                 s0["b"][c] = Poly()
             s0["bools"] = {}
             s0["g"] = {}
@@ -395,5 +405,8 @@ def analyse(hirfn, short):
     st = {"b": {}, "env": {}, "bools": {}, "g": {}}
     body = hirfn["body"]
     # `while cond { body }` is desugared to loop { if cond { body } else { break } }: handled by ev('loop') + ev('if')
-    b.ev(body, st)
+    end = b.ev(body, st)
+    if end is not None:
+        for c in list(end.get("g", {})):
+            b.leftover(end, c, "the end of the function")
     return b
